@@ -60,7 +60,9 @@ ASSUMPTIONS = [
     "overload groups: per scope and name, overloads precede at most one implementation (no re-definition of an implementation, no overload after it); "
     "groups without implementation are generated but nothing is demanded of them beyond not being attached elsewhere",
     "property groups: setters/deleters are defined under the property's own name in the same class body, after the getter",
-    "annotation / default texts come from small position-indexed pools of simple expressions (expression rendering itself is C03's subject)",
+    "annotation / default texts come from small position-indexed pools: names, subscripts, unions, literals in several notations, and a few "
+    "composite forms (tuple inside a call / conditional / list inside a subscript; keyword arguments holding calls with keyword arguments, "
+    "**mapping arguments) built from helper callables that return plain data; expression rendering at large is C03's subject",
     "string annotations are compared in a module without PEP 563, where CPython reports the content of the string; "
     "a lambda's reported text is compared by evaluating it (its defaults are literals) and taking inspect.signature",
     "definitions CPython binds to a property-like descriptor (property, cached_property) are modelled as attributes by Griffe and carry no signature to compare",
